@@ -725,6 +725,9 @@ pub fn c07_ref_pair(ctx: &mut Ctx, a: &str, bb: &str) {
     let xo = x.to_owned();
     let yo = y.to_owned();
     eq_probe!(ctx, "C07.eq", f(), want, "RiRefBuf==RiRefBuf", xo == yo);
+    eq_probe!(ctx, "C07.eq", f(), !want, "RiRefBuf!=RiRefBuf", xo != yo);
+    eq_probe!(ctx, "C07.eq", f(), !want, "RiRef!=RiRefBuf", *x != yo);
+    eq_probe!(ctx, "C07.eq", f(), !want, "RiRefBuf!=RiRef", xo != *y);
     eq_probe!(ctx, "C07.eq", f(), want, "RiRef==RiRefBuf", *x == yo);
     eq_probe!(ctx, "C07.eq", f(), want, "RiRefBuf==RiRef", xo == *y);
     eq_probe!(ctx, "C07.eq", f(), want, "RiRefBuf==&RiRef", xo == y);
@@ -735,6 +738,12 @@ pub fn c07_ref_pair(ctx: &mut Ctx, a: &str, bb: &str) {
         let yio = yi.to_owned();
         eq_probe!(ctx, "C07.eq", f(), want, "Ri==Ri", xi == yi);
         eq_probe!(ctx, "C07.eq", f(), want, "Ri==Ri (sym)", yi == xi);
+        eq_probe!(ctx, "C07.eq", f(), !want, "Ri!=Ri", xi != yi);
+        eq_probe!(ctx, "C07.eq", f(), !want, "Ri!=Ri (sym)", yi != xi);
+        eq_probe!(ctx, "C07.eq", f(), !want, "RiBuf!=RiBuf", xio != yio);
+        eq_probe!(ctx, "C07.eq", f(), !want, "Ri!=RiRef", *xi != *y);
+        eq_probe!(ctx, "C07.eq", f(), !want, "RiRef!=Ri", *x != *yi);
+        eq_probe!(ctx, "C07.eq", f(), !want, "RiBuf!=Ri", xio != *yi);
         eq_probe!(ctx, "C07.eq", f(), want, "Ri==&Ri", *xi == yi);
         eq_probe!(ctx, "C07.eq", f(), want, "Ri==RiBuf", *xi == yio);
         eq_probe!(ctx, "C07.eq", f(), want, "Ri==RiRef", *xi == *y);
@@ -766,10 +775,12 @@ macro_rules! c07_comp_typed {
             $ctx.stratum(&format!("octets:{}", octet_class(&texts)));
             eq_probe!($ctx, "C07.eq", f(), want, concat!($name, "=="), x == y);
             eq_probe!($ctx, "C07.eq", f(), want, concat!($name, "== (sym)"), y == x);
+            eq_probe!($ctx, "C07.eq", f(), !want, concat!($name, "!="), x != y);
             eq_probe!($ctx, "C07.eq", f(), true, concat!($name, "==self"), x == x);
             let xo = x.to_owned();
             let yo = y.to_owned();
             eq_probe!($ctx, "C07.eq", f(), want, concat!($name, "Buf==Buf"), xo == yo);
+            eq_probe!($ctx, "C07.eq", f(), !want, concat!($name, "Buf!=Buf"), xo != yo);
             eq_probe!($ctx, "C07.eq", f(), want, concat!($name, "Buf==borrowed"), xo == *y);
             eq_probe!($ctx, "C07.eq", f(), want, concat!($name, "Buf==&borrowed"), xo == y);
         } else {
@@ -2736,6 +2747,16 @@ pub fn lockstep(a: &str, bb: &str, ops_text: &str) -> Vec<String> {
         o.push(format!("relative_to {:?}", lossy(x.relative_to(y).as_bytes())));
         if let Some(yi) = y.as_full() {
             o.push(format!("resolved {:?}", lossy(x.resolved(yi).as_bytes())));
+            // the same operations through the full (scheme-ful) wrapper types, borrowed and owned
+            if let Some(xi) = x.as_full() {
+                let (xio, yio) = (xi.to_owned(), yi.to_owned());
+                o.push(format!("full relative_to {:?} {:?} {:?}", lossy(xi.relative_to(yi).as_bytes()), lossy(xio.relative_to(yi).as_bytes()), lossy(yi.relative_to(xi).as_bytes())));
+                o.push(format!("full suffix {:?}", xi.suffix(yi).map(|(p, q, f)| (lossy(p.as_bytes()), q.map(|s| lossy(s.as_bytes())), f.map(|s| lossy(s.as_bytes()))))));
+                o.push(format!("full base {:?} {:?}", lossy(xi.base().as_bytes()), lossy(xio.base().as_bytes())));
+                { let xr: &RiRef = xi.as_ref(); o.push(format!("full as reference resolved {:?} eq {}", lossy(xr.resolved(yi).as_bytes()), *xr == *x)); }
+                o.push(format!("full parts {:?} {:?} {:?}", lossy(xi.scheme().as_bytes()), xi.authority().map(|s| lossy(s.as_bytes())), lossy(xi.path().as_bytes())));
+                let _ = yio;
+            }
         }
         let mut buf = x.to_owned();
         for op in parse_ops(ops_text) {
